@@ -25,6 +25,18 @@ type witnessFile struct {
 	Violated  string     `json:"violated,omitempty"`
 	Decisions []string   `json:"decisions,omitempty"`
 	Expect    *nativeOut `json:"engine_expectation,omitempty"`
+	// for harnesses that only run in the engine (crash model, stubs): the decision
+	// prefix that re-executes the counterexample path
+	EngineOnly   bool         `json:"engine_only,omitempty"`
+	EnginePrefix []prefixStep `json:"engine_prefix,omitempty"`
+}
+
+type prefixStep struct {
+	N      int    `json:"n"`
+	Choice int    `json:"choice"`
+	Val    uint64 `json:"val"`
+	Kind   string `json:"kind"`
+	Label  string `json:"label"`
 }
 
 type nativeOut struct {
@@ -63,7 +75,9 @@ func makeWitness(prop string, hr *HarnessResult, p *PathResult, tier int) witnes
 	}
 	for _, d := range p.Decisions {
 		w.Decisions = append(w.Decisions, d.kind+"="+d.label)
+		w.EnginePrefix = append(w.EnginePrefix, prefixStep{N: d.n, Choice: d.choice, Val: d.val, Kind: d.kind, Label: d.label})
 	}
+	w.EngineOnly = hr.NoNative
 	exp := &nativeOut{Harness: hr.Name, Reached: p.Reached}
 	for _, o := range p.Observes {
 		exp.Observes = append(exp.Observes, struct {
@@ -304,6 +318,9 @@ func (r *CheckRun) ReplayFile(path string) int {
 		fmt.Fprintln(os.Stderr, err)
 		return 2
 	}
+	if w.EngineOnly {
+		return r.replayInEngine(&w)
+	}
 	// find the package directory that defines the harness
 	dir := ""
 	for p, src := range r.overlay {
@@ -338,4 +355,42 @@ func (r *CheckRun) ReplayFile(path string) int {
 	}
 	fmt.Println("not reproduced: every assertion passed natively")
 	return 0
+}
+
+// replayInEngine re-executes a stored decision prefix symbolically against the
+// current tree and reports whether the same assertion is violated again.
+func (r *CheckRun) replayInEngine(w *witnessFile) int {
+	if err := r.load(); err != nil {
+		fmt.Fprintln(os.Stderr, "load:", err)
+		return 2
+	}
+	for _, p := range r.pkgs {
+		if p == nil {
+			continue
+		}
+		fn := p.Func(w.Harness)
+		if fn == nil {
+			continue
+		}
+		cfg, _, _ := r.harnessCfg(fn)
+		cfg.Workers = 1
+		cfg.MaxPaths = 1
+		ex := NewExplorer(r.prog, fn, cfg)
+		ex.tier = w.Tier
+		var prefix []decision
+		for _, s := range w.EnginePrefix {
+			prefix = append(prefix, decision{n: s.N, choice: s.Choice, val: s.Val, kind: s.Kind, label: s.Label})
+		}
+		ex.RunPrefix(prefix)
+		for _, v := range ex.Violations {
+			if v.Violated == w.Violated || (w.Violated == "" && v.Outcome == outcomePanic) {
+				fmt.Printf("REPRODUCED (engine re-execution): %s\n", v.Msg)
+				return 1
+			}
+		}
+		fmt.Println("not reproduced by engine re-execution")
+		return 0
+	}
+	fmt.Fprintln(os.Stderr, "harness not found:", w.Harness)
+	return 2
 }
